@@ -1,6 +1,6 @@
 """C13 - t2incon round trip.  Rules RECSEQ, TERM, LAYPREFIX, FMAP, NAMEFIX, CHUNK, PAIR."""
 import ast
-from ..core import AnalysisError, norm, dotted, call_name, walk_no_nested, const_str, is_self_attr
+from ..core import srcline, AnalysisError, norm, dotted, call_name, walk_no_nested, const_str, is_self_attr
 from ..iomodel import layout_equiv
 from ..layout import load_table, fields_of, layout
 from ..fmap import reader_map, Sym
@@ -40,8 +40,12 @@ def rule_layprefix(run):
                      where='t2incons.py (t2incon_format_specification)')
     rd = prog.func(C + 'read')
     kinds = [const_str(c.args[1]) for c in walk_no_nested(rd.node) if isinstance(c, ast.Call) and call_name(c) == 'parse_string' and len(c.args) == 2]
-    run.check('incon1_toughreact' in kinds and 'incon1' not in kinds, 't2incon.read :: block header parsed with incon1_toughreact',
-              'block header lines are parsed with %s' % [k for k in kinds if k and k.startswith('incon1')], where=rd.where())
+    hk = [k for k in kinds if k and k.startswith('incon1')]
+    if not hk:
+        run.unknown('t2incon.read :: block header parsed with incon1_toughreact', 'no parse of a block header record found in read() (moved into a helper?)', where=rd.where())
+    else:
+        run.check('incon1_toughreact' in kinds and 'incon1' not in kinds, 't2incon.read :: block header parsed with incon1_toughreact',
+                  'block header lines are parsed with %s' % hk, where=rd.where())
     # timing selector: which record kind each side uses for the timing line, as a function of the simulator flavour.  The
     # statements that compute the kind argument are interpreted for both flavours (whatever their shape: += on a base name,
     # conditional expression, helper result)
@@ -202,6 +206,9 @@ def rule_fmap(run):
         except AnalysisError as e:
             run.unknown('t2incon %s' % kind, str(e), where=wr.where()); continue
         compare_maps(run, 't2incon %s' % kind, rmap, wsyms, f2, 't2blockincon', rd, wr, rnode, wnode)
+    from .io_common import fix_dominates_rule
+    if not fix_dominates_rule(run, rd, ('t2blockincon', 'add_incon')):
+        run.unknown('t2incon.read :: block name fixed before the hand-over', 'no `X = fix_blockname(X)` re-binding found', where=rd.where(), rule='NAMEFIX')
     # variables: accumulated from incon2 lines into the first constructor argument, written from incon.variable
     ctor = [c for c in ast.walk(rd.node) if isinstance(c, ast.Call) and isinstance(c.func, ast.Name) and c.func.id == 't2blockincon']
     acc = [n for n in ast.walk(rd.node) if isinstance(n, ast.AugAssign) and isinstance(n.op, ast.Add) and norm(n.value) == 'linevals']
@@ -317,7 +324,7 @@ def rule_flavour(run):
     late = [x for st in body[last + 1:] for x in loads(st)]
     if early:
         run.violated(key, 'self.simulator is read at line %d, before the loop over the block records (line %d) that sets it: the timing '
-                     'record of a TOUGHREACT file read into a fresh object is parsed with the TOUGH2 columns' % (early[0].lineno, body[last].lineno),
+                     'record of a TOUGHREACT file read into a fresh object is parsed with the TOUGH2 columns' % (srcline(early[0]), srcline(body[last])),
                      where=rd.where(early[0]))
     else:
         run.ok(key, {'reads after': len(late)}, where=rd.where(body[last]))
